@@ -240,7 +240,10 @@ def run_forecast(c):
             lg = logging.getLogger('biogeme.mdcev.mdcev')
             lg.addHandler(g)
             try:
-                m.forecast_comparison_one_draw(one_row_of_database=row, total_budget=B, epsilon=eps)
+                # same tolerances as the forecast_bisection_one_draw call above (its defaults are 1e-13; the
+                # defaults of the comparison are 1e-10, which legitimately moves the solution)
+                ckw = kw or {'tolerance_dual': 1.0e-13, 'tolerance_budget': 1.0e-13}
+                m.forecast_comparison_one_draw(one_row_of_database=row, total_budget=B, epsilon=eps, **ckw)
                 r['comparison'] = g.msgs
             except Exception as e:  # noqa
                 r['comparison'] = exc(e)
